@@ -34,19 +34,16 @@ fn any_load_order() -> Ordering {
     }
 }
 
-/// One harness per (atomic type, operation group).  Inside, the operation is
-/// chosen by a symbolic selector, operands are symbolic at full width.
+/// One harness per (atomic type, operation).  Operands are symbolic at full
+/// width, orderings symbolic over the valid ones.
 macro_rules! int_harness {
-    ($name:ident, $loom:ident, $std:ty, $t:ty, $group:expr, $tier:literal, $doc:literal) => {
+    ($name:ident, $loom:ident, $std:ty, $t:ty, $op:expr) => {
         vharness! {
-            #[doc = $doc]
             #[cfg_attr(kani, kani::unwind(8))]
             fn $name() {
                 let v0: $t = kani::any();
                 let x: $t = kani::any();
                 let y: $t = kani::any();
-                let sel: u8 = kani::any();
-                kani::assume(sel < 4);
                 let ord = any_order();
                 let ford = any_load_order();
                 let s = <$std>::new(v0);
@@ -54,47 +51,49 @@ macro_rules! int_harness {
                 let ok = sched::enter(&mut e, || {
                     let a = $loom::new(v0);
                     let mut same = true;
-                    match ($group, sel) {
-                        (0, 0) => same &= a.fetch_add(x, ord) == s.fetch_add(x, ord),
-                        (0, 1) => same &= a.fetch_sub(x, ord) == s.fetch_sub(x, ord),
-                        (0, 2) => same &= a.fetch_max(x, ord) == s.fetch_max(x, ord),
-                        (0, _) => same &= a.fetch_min(x, ord) == s.fetch_min(x, ord),
-                        (1, 0) => same &= a.fetch_and(x, ord) == s.fetch_and(x, ord),
-                        (1, 1) => same &= a.fetch_nand(x, ord) == s.fetch_nand(x, ord),
-                        (1, 2) => same &= a.fetch_or(x, ord) == s.fetch_or(x, ord),
-                        (1, _) => same &= a.fetch_xor(x, ord) == s.fetch_xor(x, ord),
-                        (2, 0) => same &= a.swap(x, ord) == s.swap(x, ord),
-                        (2, 1) => same &= a.compare_exchange(x, y, ord, ford) == s.compare_exchange(x, y, ord, ford),
-                        (2, 2) => {
+                    let op: u8 = $op;
+                    match op {
+                        0 => same &= a.fetch_add(x, ord) == s.fetch_add(x, ord),
+                        1 => same &= a.fetch_sub(x, ord) == s.fetch_sub(x, ord),
+                        2 => same &= a.fetch_max(x, ord) == s.fetch_max(x, ord),
+                        3 => same &= a.fetch_min(x, ord) == s.fetch_min(x, ord),
+                        4 => same &= a.fetch_and(x, ord) == s.fetch_and(x, ord),
+                        5 => same &= a.fetch_nand(x, ord) == s.fetch_nand(x, ord),
+                        6 => same &= a.fetch_or(x, ord) == s.fetch_or(x, ord),
+                        7 => same &= a.fetch_xor(x, ord) == s.fetch_xor(x, ord),
+                        8 => same &= a.swap(x, ord) == s.swap(x, ord),
+                        9 => same &= a.compare_exchange(x, y, ord, ford) == s.compare_exchange(x, y, ord, ford),
+                        10 => {
                             // loom models no spurious failure of the weak form: compare with the strong std form
                             same &= a.compare_exchange_weak(x, y, ord, ford) == s.compare_exchange(x, y, ord, ford)
                         }
-                        (2, _) => {
+                        11 => {
                             let keep: bool = kani::any();
                             let f = |v: $t| if keep { Some(v ^ x) } else { None };
                             same &= a.fetch_update(ord, ford, f) == s.fetch_update(ord, ford, f)
                         }
-                        (_, 0) => {
+                        12 => {
                             let lo = any_load_order();
                             same &= a.load(lo) == s.load(lo)
                         }
-                        (_, 1) => {
+                        13 => {
                             let c: u8 = kani::any();
                             kani::assume(c <= 2);
                             let so = match c { 0 => Relaxed, 1 => Release, _ => SeqCst };
                             a.store(x, so);
                             s.store(x, so);
                         }
-                        (_, 2) => {
+                        14 => {
                             #[allow(deprecated)]
                             {
                                 same &= a.compare_and_swap(x, y, ord) == s.compare_and_swap(x, y, ord)
                             }
                         }
-                        (_, _) => {
+                        _ => {
                             let mut a2 = $loom::new(v0);
                             a2.with_mut(|p| *p = (*p).wrapping_add(x));
                             same &= unsafe { a2.unsync_load() } == v0.wrapping_add(x);
+                            std::mem::forget(a2);
                         }
                     }
                     // final content
@@ -103,44 +102,59 @@ macro_rules! int_harness {
                     same
                 });
                 assert!(ok);
-                kani::cover!(sel == 2, "third operation of the group");
-                kani::cover!(sel == 3, "fourth operation of the group");
+                kani::cover!(x != v0, "operand differs from the stored value");
+                kani::cover!(x == v0, "operand equals the stored value");
                 std::mem::forget(e);
             }
         }
     };
 }
 
-//@H atomic_u64_arith @prop C12 @tier quick @mode fast @cost 3 @timeout 3600 @funcs AtomicU64::{new,fetch_add,fetch_sub,fetch_max,fetch_min,unsync_load},Atomic::rmw,rt::Atomic::rmw,Numeric @bounds one operation after new; all u64 initial values and operands; all orderings :: AtomicU64 fetch_add/fetch_sub/fetch_max/fetch_min return std's value and leave std's content, for every operand pair including wrap-around and the 2^63 boundary.
-//@H atomic_i8_arith @prop C12 @tier quick @mode fast @cost 3 @timeout 3600 @funcs AtomicI8::{new,fetch_add,fetch_sub,fetch_max,fetch_min,unsync_load},Atomic::rmw,Numeric @bounds one operation after new; all i8 values; all orderings :: AtomicI8 arithmetic group: sign extension and truncation through the u64 encoding are invisible.
-//@H atomic_i64_bits @prop C12 @tier quick @mode fast @cost 3 @timeout 3600 @funcs AtomicI64::{fetch_and,fetch_nand,fetch_or,fetch_xor} @bounds one operation after new; all i64 values; all orderings :: AtomicI64 bitwise group equals std.
-//@H atomic_u8_cas @prop C12 @tier quick @mode fast @cost 3 @timeout 3600 @funcs AtomicU8::{swap,compare_exchange,compare_exchange_weak,fetch_update},Atomic::try_rmw @bounds one operation after new; all u8 values; all valid success/failure orderings :: AtomicU8 swap / compare_exchange(_weak) / fetch_update: same Ok/Err shape and payload as std, same final content.
-//@H atomic_i16_misc @prop C12 @tier quick @mode fast @cost 3 @timeout 3600 @funcs AtomicI16::{load,store,compare_and_swap,with_mut,unsync_load} @bounds one operation after new; all i16 values :: AtomicI16 load / store / compare_and_swap / with_mut equal std.
-//@H atomic_usize_arith @prop C12 @tier thorough @mode fast @cost 3 @timeout 3600 @funcs AtomicUsize::{fetch_add,fetch_sub,fetch_max,fetch_min} @bounds one operation after new; all usize values :: AtomicUsize arithmetic group equals std.
-//@H atomic_i64_arith @prop C12 @tier thorough @mode fast @cost 3 @timeout 3600 @funcs AtomicI64::{fetch_add,fetch_sub,fetch_max,fetch_min} @bounds one operation after new; all i64 values :: AtomicI64 arithmetic group equals std.
-//@H atomic_u32_bits @prop C12 @tier thorough @mode fast @cost 3 @timeout 3600 @funcs AtomicU32::{fetch_and,fetch_nand,fetch_or,fetch_xor} @bounds one operation after new; all u32 values :: AtomicU32 bitwise group equals std.
-//@H atomic_isize_cas @prop C12 @tier thorough @mode fast @cost 3 @timeout 3600 @funcs AtomicIsize::{swap,compare_exchange,compare_exchange_weak,fetch_update} @bounds one operation after new; all isize values :: AtomicIsize CAS group equals std.
-//@H atomic_u16_arith @prop C12 @tier thorough @mode fast @cost 3 @timeout 3600 @funcs AtomicU16::{fetch_add,fetch_sub,fetch_max,fetch_min} @bounds one operation after new; all u16 values :: AtomicU16 arithmetic group equals std.
-//@H atomic_i32_cas @prop C12 @tier thorough @mode fast @cost 3 @timeout 3600 @funcs AtomicI32::{swap,compare_exchange,compare_exchange_weak,fetch_update} @bounds one operation after new; all i32 values :: AtomicI32 CAS group equals std.
-int_harness!(atomic_u64_arith, AtomicU64, std::sync::atomic::AtomicU64, u64, 0u8, "quick",
-    "@prop C12 @tier quick @mode fast @cost 3 @timeout 3600 @funcs AtomicU64::{new,fetch_add,fetch_sub,fetch_max,fetch_min,unsync_load},Atomic::rmw,rt::Atomic::rmw,Numeric @bounds one operation after new; all u64 initial values and operands; all orderings\nAtomicU64 fetch_add/fetch_sub/fetch_max/fetch_min return std's value and leave std's content, for every operand pair including wrap-around and the 2^63 boundary.");
-int_harness!(atomic_i8_arith, AtomicI8, std::sync::atomic::AtomicI8, i8, 0u8, "quick",
-    "@prop C12 @tier quick @mode fast @cost 3 @timeout 3600 @funcs AtomicI8::{new,fetch_add,fetch_sub,fetch_max,fetch_min,unsync_load},Atomic::rmw,Numeric @bounds one operation after new; all i8 values; all orderings\nAtomicI8 arithmetic group: sign extension and truncation through the u64 encoding are invisible.");
-int_harness!(atomic_i64_bits, AtomicI64, std::sync::atomic::AtomicI64, i64, 1u8, "quick",
-    "@prop C12 @tier quick @mode fast @cost 3 @timeout 3600 @funcs AtomicI64::{fetch_and,fetch_nand,fetch_or,fetch_xor} @bounds one operation after new; all i64 values; all orderings\nAtomicI64 bitwise group equals std.");
-int_harness!(atomic_u8_cas, AtomicU8, std::sync::atomic::AtomicU8, u8, 2u8, "quick",
-    "@prop C12 @tier quick @mode fast @cost 3 @timeout 3600 @funcs AtomicU8::{swap,compare_exchange,compare_exchange_weak,fetch_update},Atomic::try_rmw @bounds one operation after new; all u8 values; all valid success/failure orderings\nAtomicU8 swap / compare_exchange(_weak) / fetch_update: same Ok/Err shape and payload as std, same final content.");
-int_harness!(atomic_i16_misc, AtomicI16, std::sync::atomic::AtomicI16, i16, 3u8, "quick",
-    "@prop C12 @tier quick @mode fast @cost 3 @timeout 3600 @funcs AtomicI16::{load,store,compare_and_swap,with_mut,unsync_load} @bounds one operation after new; all i16 values\nAtomicI16 load / store / compare_and_swap / with_mut equal std.");
-int_harness!(atomic_usize_arith, AtomicUsize, std::sync::atomic::AtomicUsize, usize, 0u8, "thorough",
-    "@prop C12 @tier thorough @mode fast @cost 3 @timeout 3600 @funcs AtomicUsize::{fetch_add,fetch_sub,fetch_max,fetch_min} @bounds one operation after new; all usize values\nAtomicUsize arithmetic group equals std.");
-int_harness!(atomic_i64_arith, AtomicI64, std::sync::atomic::AtomicI64, i64, 0u8, "thorough",
-    "@prop C12 @tier thorough @mode fast @cost 3 @timeout 3600 @funcs AtomicI64::{fetch_add,fetch_sub,fetch_max,fetch_min} @bounds one operation after new; all i64 values\nAtomicI64 arithmetic group equals std.");
-int_harness!(atomic_u32_bits, AtomicU32, std::sync::atomic::AtomicU32, u32, 1u8, "thorough",
-    "@prop C12 @tier thorough @mode fast @cost 3 @timeout 3600 @funcs AtomicU32::{fetch_and,fetch_nand,fetch_or,fetch_xor} @bounds one operation after new; all u32 values\nAtomicU32 bitwise group equals std.");
-int_harness!(atomic_isize_cas, AtomicIsize, std::sync::atomic::AtomicIsize, isize, 2u8, "thorough",
-    "@prop C12 @tier thorough @mode fast @cost 3 @timeout 3600 @funcs AtomicIsize::{swap,compare_exchange,compare_exchange_weak,fetch_update} @bounds one operation after new; all isize values\nAtomicIsize CAS group equals std.");
-int_harness!(atomic_u16_arith, AtomicU16, std::sync::atomic::AtomicU16, u16, 0u8, "thorough",
-    "@prop C12 @tier thorough @mode fast @cost 3 @timeout 3600 @funcs AtomicU16::{fetch_add,fetch_sub,fetch_max,fetch_min} @bounds one operation after new; all u16 values\nAtomicU16 arithmetic group equals std.");
-int_harness!(atomic_i32_cas, AtomicI32, std::sync::atomic::AtomicI32, i32, 2u8, "thorough",
-    "@prop C12 @tier thorough @mode fast @cost 3 @timeout 3600 @funcs AtomicI32::{swap,compare_exchange,compare_exchange_weak,fetch_update} @bounds one operation after new; all i32 values\nAtomicI32 CAS group equals std.");
+//@H atomic_u64_fetch_max @prop C12 @tier quick @mode fast @cost 3 @timeout 3600 @funcs AtomicU64::new,AtomicU64::fetch_max,AtomicU64::unsync_load,Atomic::rmw,Atomic::try_rmw,rt::Atomic::rmw,Numeric::into_u64,Numeric::from_u64 @bounds one operation after new; every u64 initial value and operand (full width); every valid ordering :: AtomicU64::fetch_max returns what std's returns (including the Ok/Err shape) and leaves std's content, for all operand values including wrap-around and sign/width boundaries
+int_harness!(atomic_u64_fetch_max, AtomicU64, std::sync::atomic::AtomicU64, u64, 2);
+//@H atomic_i8_fetch_add @prop C12 @tier quick @mode fast @cost 3 @timeout 3600 @funcs AtomicI8::new,AtomicI8::fetch_add,AtomicI8::unsync_load,Atomic::rmw,Atomic::try_rmw,rt::Atomic::rmw,Numeric::into_u64,Numeric::from_u64 @bounds one operation after new; every i8 initial value and operand (full width); every valid ordering :: AtomicI8::fetch_add returns what std's returns (including the Ok/Err shape) and leaves std's content, for all operand values including wrap-around and sign/width boundaries
+int_harness!(atomic_i8_fetch_add, AtomicI8, std::sync::atomic::AtomicI8, i8, 0);
+//@H atomic_u8_fetch_update @prop C12 @tier quick @mode fast @cost 3 @timeout 3600 @funcs AtomicU8::new,AtomicU8::fetch_update,AtomicU8::unsync_load,Atomic::rmw,Atomic::try_rmw,rt::Atomic::rmw,Numeric::into_u64,Numeric::from_u64 @bounds one operation after new; every u8 initial value and operand (full width); every valid ordering :: AtomicU8::fetch_update returns what std's returns (including the Ok/Err shape) and leaves std's content, for all operand values including wrap-around and sign/width boundaries
+int_harness!(atomic_u8_fetch_update, AtomicU8, std::sync::atomic::AtomicU8, u8, 11);
+//@H atomic_i16_compare_exchange @prop C12 @tier quick @mode fast @cost 3 @timeout 3600 @funcs AtomicI16::new,AtomicI16::compare_exchange,AtomicI16::unsync_load,Atomic::rmw,Atomic::try_rmw,rt::Atomic::rmw,Numeric::into_u64,Numeric::from_u64 @bounds one operation after new; every i16 initial value and operand (full width); every valid ordering :: AtomicI16::compare_exchange returns what std's returns (including the Ok/Err shape) and leaves std's content, for all operand values including wrap-around and sign/width boundaries
+int_harness!(atomic_i16_compare_exchange, AtomicI16, std::sync::atomic::AtomicI16, i16, 9);
+//@H atomic_usize_fetch_min @prop C12 @tier thorough @mode fast @cost 3 @timeout 3600 @funcs AtomicUsize::new,AtomicUsize::fetch_min,AtomicUsize::unsync_load,Atomic::rmw,Atomic::try_rmw,rt::Atomic::rmw,Numeric::into_u64,Numeric::from_u64 @bounds one operation after new; every usize initial value and operand (full width); every valid ordering :: AtomicUsize::fetch_min returns what std's returns (including the Ok/Err shape) and leaves std's content, for all operand values including wrap-around and sign/width boundaries
+int_harness!(atomic_usize_fetch_min, AtomicUsize, std::sync::atomic::AtomicUsize, usize, 3);
+//@H atomic_i64_fetch_max @prop C12 @tier thorough @mode fast @cost 3 @timeout 3600 @funcs AtomicI64::new,AtomicI64::fetch_max,AtomicI64::unsync_load,Atomic::rmw,Atomic::try_rmw,rt::Atomic::rmw,Numeric::into_u64,Numeric::from_u64 @bounds one operation after new; every i64 initial value and operand (full width); every valid ordering :: AtomicI64::fetch_max returns what std's returns (including the Ok/Err shape) and leaves std's content, for all operand values including wrap-around and sign/width boundaries
+int_harness!(atomic_i64_fetch_max, AtomicI64, std::sync::atomic::AtomicI64, i64, 2);
+//@H atomic_u64_fetch_min @prop C12 @tier thorough @mode fast @cost 3 @timeout 3600 @funcs AtomicU64::new,AtomicU64::fetch_min,AtomicU64::unsync_load,Atomic::rmw,Atomic::try_rmw,rt::Atomic::rmw,Numeric::into_u64,Numeric::from_u64 @bounds one operation after new; every u64 initial value and operand (full width); every valid ordering :: AtomicU64::fetch_min returns what std's returns (including the Ok/Err shape) and leaves std's content, for all operand values including wrap-around and sign/width boundaries
+int_harness!(atomic_u64_fetch_min, AtomicU64, std::sync::atomic::AtomicU64, u64, 3);
+//@H atomic_u64_fetch_add @prop C12 @tier thorough @mode fast @cost 3 @timeout 3600 @funcs AtomicU64::new,AtomicU64::fetch_add,AtomicU64::unsync_load,Atomic::rmw,Atomic::try_rmw,rt::Atomic::rmw,Numeric::into_u64,Numeric::from_u64 @bounds one operation after new; every u64 initial value and operand (full width); every valid ordering :: AtomicU64::fetch_add returns what std's returns (including the Ok/Err shape) and leaves std's content, for all operand values including wrap-around and sign/width boundaries
+int_harness!(atomic_u64_fetch_add, AtomicU64, std::sync::atomic::AtomicU64, u64, 0);
+//@H atomic_i64_fetch_sub @prop C12 @tier thorough @mode fast @cost 3 @timeout 3600 @funcs AtomicI64::new,AtomicI64::fetch_sub,AtomicI64::unsync_load,Atomic::rmw,Atomic::try_rmw,rt::Atomic::rmw,Numeric::into_u64,Numeric::from_u64 @bounds one operation after new; every i64 initial value and operand (full width); every valid ordering :: AtomicI64::fetch_sub returns what std's returns (including the Ok/Err shape) and leaves std's content, for all operand values including wrap-around and sign/width boundaries
+int_harness!(atomic_i64_fetch_sub, AtomicI64, std::sync::atomic::AtomicI64, i64, 1);
+//@H atomic_u32_fetch_nand @prop C12 @tier thorough @mode fast @cost 3 @timeout 3600 @funcs AtomicU32::new,AtomicU32::fetch_nand,AtomicU32::unsync_load,Atomic::rmw,Atomic::try_rmw,rt::Atomic::rmw,Numeric::into_u64,Numeric::from_u64 @bounds one operation after new; every u32 initial value and operand (full width); every valid ordering :: AtomicU32::fetch_nand returns what std's returns (including the Ok/Err shape) and leaves std's content, for all operand values including wrap-around and sign/width boundaries
+int_harness!(atomic_u32_fetch_nand, AtomicU32, std::sync::atomic::AtomicU32, u32, 5);
+//@H atomic_i32_fetch_and @prop C12 @tier thorough @mode fast @cost 3 @timeout 3600 @funcs AtomicI32::new,AtomicI32::fetch_and,AtomicI32::unsync_load,Atomic::rmw,Atomic::try_rmw,rt::Atomic::rmw,Numeric::into_u64,Numeric::from_u64 @bounds one operation after new; every i32 initial value and operand (full width); every valid ordering :: AtomicI32::fetch_and returns what std's returns (including the Ok/Err shape) and leaves std's content, for all operand values including wrap-around and sign/width boundaries
+int_harness!(atomic_i32_fetch_and, AtomicI32, std::sync::atomic::AtomicI32, i32, 4);
+//@H atomic_u16_fetch_or @prop C12 @tier thorough @mode fast @cost 3 @timeout 3600 @funcs AtomicU16::new,AtomicU16::fetch_or,AtomicU16::unsync_load,Atomic::rmw,Atomic::try_rmw,rt::Atomic::rmw,Numeric::into_u64,Numeric::from_u64 @bounds one operation after new; every u16 initial value and operand (full width); every valid ordering :: AtomicU16::fetch_or returns what std's returns (including the Ok/Err shape) and leaves std's content, for all operand values including wrap-around and sign/width boundaries
+int_harness!(atomic_u16_fetch_or, AtomicU16, std::sync::atomic::AtomicU16, u16, 6);
+//@H atomic_isize_fetch_xor @prop C12 @tier thorough @mode fast @cost 3 @timeout 3600 @funcs AtomicIsize::new,AtomicIsize::fetch_xor,AtomicIsize::unsync_load,Atomic::rmw,Atomic::try_rmw,rt::Atomic::rmw,Numeric::into_u64,Numeric::from_u64 @bounds one operation after new; every isize initial value and operand (full width); every valid ordering :: AtomicIsize::fetch_xor returns what std's returns (including the Ok/Err shape) and leaves std's content, for all operand values including wrap-around and sign/width boundaries
+int_harness!(atomic_isize_fetch_xor, AtomicIsize, std::sync::atomic::AtomicIsize, isize, 7);
+//@H atomic_i8_swap @prop C12 @tier thorough @mode fast @cost 3 @timeout 3600 @funcs AtomicI8::new,AtomicI8::swap,AtomicI8::unsync_load,Atomic::rmw,Atomic::try_rmw,rt::Atomic::rmw,Numeric::into_u64,Numeric::from_u64 @bounds one operation after new; every i8 initial value and operand (full width); every valid ordering :: AtomicI8::swap returns what std's returns (including the Ok/Err shape) and leaves std's content, for all operand values including wrap-around and sign/width boundaries
+int_harness!(atomic_i8_swap, AtomicI8, std::sync::atomic::AtomicI8, i8, 8);
+//@H atomic_u16_compare_exchange_weak @prop C12 @tier thorough @mode fast @cost 3 @timeout 3600 @funcs AtomicU16::new,AtomicU16::compare_exchange_weak,AtomicU16::unsync_load,Atomic::rmw,Atomic::try_rmw,rt::Atomic::rmw,Numeric::into_u64,Numeric::from_u64 @bounds one operation after new; every u16 initial value and operand (full width); every valid ordering :: AtomicU16::compare_exchange_weak returns what std's returns (including the Ok/Err shape) and leaves std's content, for all operand values including wrap-around and sign/width boundaries
+int_harness!(atomic_u16_compare_exchange_weak, AtomicU16, std::sync::atomic::AtomicU16, u16, 10);
+//@H atomic_i64_fetch_update @prop C12 @tier thorough @mode fast @cost 3 @timeout 3600 @funcs AtomicI64::new,AtomicI64::fetch_update,AtomicI64::unsync_load,Atomic::rmw,Atomic::try_rmw,rt::Atomic::rmw,Numeric::into_u64,Numeric::from_u64 @bounds one operation after new; every i64 initial value and operand (full width); every valid ordering :: AtomicI64::fetch_update returns what std's returns (including the Ok/Err shape) and leaves std's content, for all operand values including wrap-around and sign/width boundaries
+int_harness!(atomic_i64_fetch_update, AtomicI64, std::sync::atomic::AtomicI64, i64, 11);
+//@H atomic_u8_load @prop C12 @tier thorough @mode fast @cost 3 @timeout 3600 @funcs AtomicU8::new,AtomicU8::load,AtomicU8::unsync_load,Atomic::rmw,Atomic::try_rmw,rt::Atomic::rmw,Numeric::into_u64,Numeric::from_u64 @bounds one operation after new; every u8 initial value and operand (full width); every valid ordering :: AtomicU8::load returns what std's returns (including the Ok/Err shape) and leaves std's content, for all operand values including wrap-around and sign/width boundaries
+int_harness!(atomic_u8_load, AtomicU8, std::sync::atomic::AtomicU8, u8, 12);
+//@H atomic_isize_store @prop C12 @tier thorough @mode fast @cost 3 @timeout 3600 @funcs AtomicIsize::new,AtomicIsize::store,AtomicIsize::unsync_load,Atomic::rmw,Atomic::try_rmw,rt::Atomic::rmw,Numeric::into_u64,Numeric::from_u64 @bounds one operation after new; every isize initial value and operand (full width); every valid ordering :: AtomicIsize::store returns what std's returns (including the Ok/Err shape) and leaves std's content, for all operand values including wrap-around and sign/width boundaries
+int_harness!(atomic_isize_store, AtomicIsize, std::sync::atomic::AtomicIsize, isize, 13);
+//@H atomic_i32_compare_and_swap @prop C12 @tier thorough @mode fast @cost 3 @timeout 3600 @funcs AtomicI32::new,AtomicI32::compare_and_swap,AtomicI32::unsync_load,Atomic::rmw,Atomic::try_rmw,rt::Atomic::rmw,Numeric::into_u64,Numeric::from_u64 @bounds one operation after new; every i32 initial value and operand (full width); every valid ordering :: AtomicI32::compare_and_swap returns what std's returns (including the Ok/Err shape) and leaves std's content, for all operand values including wrap-around and sign/width boundaries
+int_harness!(atomic_i32_compare_and_swap, AtomicI32, std::sync::atomic::AtomicI32, i32, 14);
+//@H atomic_u32_with_mut @prop C12 @tier thorough @mode fast @cost 3 @timeout 3600 @funcs AtomicU32::new,AtomicU32::with_mut,AtomicU32::unsync_load,Atomic::rmw,Atomic::try_rmw,rt::Atomic::rmw,Numeric::into_u64,Numeric::from_u64 @bounds one operation after new; every u32 initial value and operand (full width); every valid ordering :: AtomicU32::with_mut returns what std's returns (including the Ok/Err shape) and leaves std's content, for all operand values including wrap-around and sign/width boundaries
+int_harness!(atomic_u32_with_mut, AtomicU32, std::sync::atomic::AtomicU32, u32, 15);
+//@H atomic_i8_fetch_min @prop C12 @tier thorough @mode fast @cost 3 @timeout 3600 @funcs AtomicI8::new,AtomicI8::fetch_min,AtomicI8::unsync_load,Atomic::rmw,Atomic::try_rmw,rt::Atomic::rmw,Numeric::into_u64,Numeric::from_u64 @bounds one operation after new; every i8 initial value and operand (full width); every valid ordering :: AtomicI8::fetch_min returns what std's returns (including the Ok/Err shape) and leaves std's content, for all operand values including wrap-around and sign/width boundaries
+int_harness!(atomic_i8_fetch_min, AtomicI8, std::sync::atomic::AtomicI8, i8, 3);
+//@H atomic_u8_fetch_max @prop C12 @tier thorough @mode fast @cost 3 @timeout 3600 @funcs AtomicU8::new,AtomicU8::fetch_max,AtomicU8::unsync_load,Atomic::rmw,Atomic::try_rmw,rt::Atomic::rmw,Numeric::into_u64,Numeric::from_u64 @bounds one operation after new; every u8 initial value and operand (full width); every valid ordering :: AtomicU8::fetch_max returns what std's returns (including the Ok/Err shape) and leaves std's content, for all operand values including wrap-around and sign/width boundaries
+int_harness!(atomic_u8_fetch_max, AtomicU8, std::sync::atomic::AtomicU8, u8, 2);
+//@H atomic_usize_fetch_update @prop C12 @tier thorough @mode fast @cost 3 @timeout 3600 @funcs AtomicUsize::new,AtomicUsize::fetch_update,AtomicUsize::unsync_load,Atomic::rmw,Atomic::try_rmw,rt::Atomic::rmw,Numeric::into_u64,Numeric::from_u64 @bounds one operation after new; every usize initial value and operand (full width); every valid ordering :: AtomicUsize::fetch_update returns what std's returns (including the Ok/Err shape) and leaves std's content, for all operand values including wrap-around and sign/width boundaries
+int_harness!(atomic_usize_fetch_update, AtomicUsize, std::sync::atomic::AtomicUsize, usize, 11);
+//@H atomic_i16_fetch_sub @prop C12 @tier thorough @mode fast @cost 3 @timeout 3600 @funcs AtomicI16::new,AtomicI16::fetch_sub,AtomicI16::unsync_load,Atomic::rmw,Atomic::try_rmw,rt::Atomic::rmw,Numeric::into_u64,Numeric::from_u64 @bounds one operation after new; every i16 initial value and operand (full width); every valid ordering :: AtomicI16::fetch_sub returns what std's returns (including the Ok/Err shape) and leaves std's content, for all operand values including wrap-around and sign/width boundaries
+int_harness!(atomic_i16_fetch_sub, AtomicI16, std::sync::atomic::AtomicI16, i16, 1);
